@@ -91,6 +91,11 @@ class C09(Prop):
         cfg["flat_counter_start"] = rng.choice([0, 0, 3])
         cfg["late_pins"] = rng.choice([0, 0, 0.4])
         cfg["slash_rate"] = rng.choice([0, 0, 0.3])
+        # the naming policy the design lives under, and names near the EDIF length limit: the slash-joined paths
+        # flatten makes of them are far longer than any name the policy has seen before
+        cfg["policy_start"] = rng.choice(["DEFAULT", "DEFAULT", "DEFAULT", "EDIF"])
+        cfg["long_name_rate"] = rng.choice([0.0, 0.0, 0.1, 0.3])
+        cfg["wire_reorder_rate"] = rng.choice([0, 0, 0.5])
         if rng.random() < 0.2:
             cfg["source"] = "v"
             cfg["vgen"] = {"depth": rng.choice([2, 3, 4]), "max_mods": rng.choice([1, 2, 3]), "max_ports": rng.choice([2, 4]),
